@@ -222,7 +222,11 @@ static IN_ABORT: AtomicBool = AtomicBool::new(false);
 /// name the history in flight; it runs on the aborting thread.
 extern "C" fn on_abort(_sig: i32) {
     if IN_ABORT.swap(true, Ordering::SeqCst) {
-        return;
+        // another thread is already reporting; returning would let abort() kill the process
+        // before that report is written, so park here (the reporting thread ends the process)
+        loop {
+            std::thread::sleep(std::time::Duration::from_secs(1));
+        }
     }
     let full = last_panic();
     let full = if full.is_empty() { "process abort without a panic message (stack overflow or allocation failure?)".to_string() } else { full };
